@@ -48,6 +48,8 @@ class Ctx:
         self.trusted: list[str] = []
         self.extra: dict = {}
         self.quick = tier == "quick"
+        import shutil
+        shutil.rmtree(OUT / "replay" / prop, ignore_errors=True)   # replay files always belong to the latest run
 
     # ---- accounting ------------------------------------------------------------------
     def add_tlc(self, r, what: str = "") -> None:
